@@ -156,7 +156,10 @@ def match_known(known, prop, family, rule, signature):
             continue
         if k.get('rule') and not rule.startswith(k['rule']):
             continue
-        if k.get('signature') and k['signature'] not in signature:
+        sigs = k.get('signature')
+        if isinstance(sigs, str):
+            sigs = [sigs]
+        if sigs and not any(x in signature for x in sigs):
             continue
         return k
     return None
